@@ -28,13 +28,13 @@ CHUNK = 4
 
 def bounds(tier):
     return {"shapes": SH_T if tier == "thorough" else SH_Q, "coils": [2, 3, 4, 8], "calib/kernel": CK,
-            "thresh": [0.02, 0.05], "crop": [0, 0.8, 0.95, 1.1], "data": ["gaussian seeds 0..3" if tier == "quick" else "gaussian seeds 0..7", "birdcage x ones", "birdcage x bump"],
+            "thresh": [0.02, 0.05, 0.5], "crop": [0, 0.8, 0.95, 1.1], "data": ["gaussian seeds 0..3" if tier == "quick" else "gaussian seeds 0..7", "birdcage x ones", "birdcage x bump"],
             "max_iter": [30, 100], "dtype": ["complex64", "complex128"]}
 
 
 SH_Q = [[8, 8], [9, 10], [12, 12], [16, 16], [6, 6, 6]]
 SH_T = [[8, 8], [9, 10], [12, 12], [16, 16], [15, 16], [6, 6, 6], [10, 10, 10]]
-CK = [(8, 3), (8, 4), (12, 3), (16, 3), (16, 4), (12, 6), (16, 6), (24, 6), (6, 3)]
+CK = [(8, 3), (8, 4), (12, 3), (16, 3), (16, 4), (12, 6), (16, 6), (24, 6), (6, 3), (3, 3), (4, 4), (6, 6)]
 
 
 def gen_cases(tier, seed):
@@ -47,11 +47,13 @@ def gen_cases(tier, seed):
                     continue
                 if kw > cw:
                     continue
-                for th in (0.02, 0.05):
+                for th in (0.02, 0.05, 0.5):
                     for crop in (0, 0.8, 0.95, 1.1):
                         for data in (["g0", "g1"] if not T else ["g0", "g1", "g2", "g3", "g4", "g5", "g6", "g7"]) + ["ones", "bump"]:
                             if not T and (th == 0.05 and crop in (0, 1.1)):
                                 continue
+                            if th == 0.5 and (crop not in (0, 0.8) or cw not in (8, 3, 4, 6) or not (cw == 8 or cw == kw)):
+                                continue   # high threshold / single calibration block: few kernels, small eigenvalues survive a low crop
                             if not T and nc == 3 and data.startswith("g"):
                                 continue
                             for dt in ("c64", "c128"):
